@@ -323,13 +323,38 @@ class StartLog:
         self._cls.process = self._orig
 
 
-def run_impl(nodes, data0, ctx0, trace=None, keep=None):
+def via_yaml(cfgs):
+    """Round-trip the node configurations through YAML text and the real loader (glue: string shorthands,
+    scalar parsing, derive blocks).  Returns the loaded node list, or None when a processor is a class object."""
+    import os
+    import tempfile
+    import yaml
+    from semantiva.configurations.load_pipeline_from_yaml import load_pipeline_from_yaml
+    if any(not isinstance(c.get("processor"), str) for c in cfgs):
+        return None
+    text = yaml.safe_dump({"pipeline": {"nodes": cfgs}}, sort_keys=False)
+    fd, path = tempfile.mkstemp(suffix=".yaml", prefix="verif_c01_")
+    try:
+        with os.fdopen(fd, "w") as f:
+            f.write(text)
+        return list(load_pipeline_from_yaml(path).nodes)
+    finally:
+        os.remove(path)
+
+
+def run_impl(nodes, data0, ctx0, trace=None, keep=None, yaml_path=False):
     """-> ('done', data, ctx) | ('failed', idx, stage, cls) | ('cfailed', idx, cls) | ('rejected', cls) | ('unsupported', why)"""
     setup_impl()
     from semantiva.context_processors import ContextType
     from semantiva.pipeline import Payload, Pipeline
     cfgs = [node_impl(n) for n in nodes]
     try:
+        if yaml_path:
+            loaded = via_yaml(cfgs)
+            if loaded is not None:
+                cfgs = loaded
+                if keep is not None:
+                    keep["via_yaml"] = True
         pipe = Pipeline(cfgs, trace=trace)
     except Exception as ex:  # loader rejects the configuration
         return ("rejected", type(ex).__name__)
